@@ -1,7 +1,10 @@
 #!/bin/sh
-# offline setup: nothing is fetched; pre-builds what the checks reuse
+# offline setup: nothing is fetched; pre-builds what the checks reuse (all under /verif/build)
 set -e
 cd "$(dirname "$0")"
 mkdir -p build evidence/replay
 verus --version >/dev/null
+# warm the caches: expansions, Kani harness crate, replay binaries (failures here are not fatal:
+# every check rebuilds what it needs)
+python3 tools/warm.py || true
 exit 0
